@@ -982,7 +982,7 @@ def add_obligations(rep, tier):
     eng.contracts["ref.append"] = ref_append
     lat.add("TZP", ["object"])
     eng.globals["tzp"] = E.VClass("TZP")
-    eng.contracts["TZP.localize_utc"] = lambda e, s, a, k: [(s, E.VRef(utc_of(e.box(a[1], s))))]
+    eng.contracts["TZP.localize_utc"] = comp.exact_arity(lambda e, s, a, k: [(s, E.VRef(utc_of(e.box(a[1], s))))], 2, "tzp.localize_utc(dt)")
 
     def c_encode(engine, st, args, kw):
         nm, v, params = args[1], args[2], args[3]
